@@ -6,11 +6,15 @@ cd "$(dirname "$0")/coq"
 { echo "-Q . GB"; find . -name "*.v" | sed "s#^\./##" | LC_ALL=C sort; } > _CoqProject.new
 if ! cmp -s _CoqProject.new _CoqProject; then mv _CoqProject.new _CoqProject; else rm _CoqProject.new; fi
 coq_makefile -f _CoqProject -o Makefile.coq > /dev/null
-timeout 3000 make -f Makefile.coq -j16 2>&1 | grep -v "^COQDEP\|^COQC\|conda" || true
+# -k: a file that fails (e.g. a regenerated Gen/*.v whose proof no longer checks) must not stop the
+# files of the other properties, the extraction and the driver from being built
+timeout 3000 make -k -f Makefile.coq -j16 2>&1 | grep -v "^COQDEP\|^COQC\|conda" || true
 # make's exit status (pipe hides it): re-run quietly
-timeout 3000 make -f Makefile.coq -j16 > /dev/null 2>&1
+rc=0
+timeout 3000 make -k -f Makefile.coq -j16 > /dev/null 2>&1 || rc=$?
 if [ -f model.ml ]; then mv -f model.ml model.mli ../ocaml/; fi
 cd ../ocaml
 if [ ! -x driver ] || [ model.ml -nt driver ] || [ driver.ml -nt driver ]; then
   ocamlfind ocamlopt -package zarith -linkpkg -w -a model.mli model.ml driver.ml -o driver
 fi
+exit $rc
